@@ -166,6 +166,26 @@ Theorem C11_pub_executes : forall re_match re_ok cfg now k o t rest,
 Proof. exact pub_executes. Qed.
 Print Assumptions C11_pub_executes.
 
+(* The whole decision, both directions, with the documented error codes: a PUB/MPUB/DPUB/SUB
+   that is past the TLS gate and its own syntactic checks
+     - with no auth server configured: executes;
+     - with no successful AUTH on the connection: E_AUTH_FIRST;
+     - cached answer expired and the re-query fails: E_AUTH_FAILED;
+     - answer in force does not grant (t, ch): E_UNAUTHORIZED;
+     - answer in force grants (t, ch): executes;
+   a refusal being the single fatal answer with no visible effect, an execution being the
+   command's normal answer and exactly its normal effects. *)
+Theorem C11_decision : forall re_match re_ok cfg now k o c t ch,
+  gate_blocks cfg k = false -> presyntax_ok k c = true -> demand c = Some (t, ch) ->
+  match decision re_match re_ok cfg now k o t ch with
+  | Some e => r_resps (exec re_match re_ok cfg now k o c) = [RErr e true] /\
+              filter is_world (r_fx (exec re_match re_ok cfg now k o c)) = []
+  | None => r_resps (exec re_match re_ok cfg now k o c) = granted_resps c /\
+            filter is_world (r_fx (exec re_match re_ok cfg now k o c)) = granted_world c
+  end.
+Proof. exact demand_decided. Qed.
+Print Assumptions C11_decision.
+
 (* ================================================================== non-vacuity *)
 Open Scope N_scope.
 Definition tA : str := [116;65].           (* "tA" *)
@@ -219,6 +239,18 @@ Example C11_witness_grant_logic :
   state_is_allowed kp_match g1 tA [] = false /\ state_is_allowed kp_match g1 tA chX = true /\
   state_is_allowed kp_match (mkAS [grantB_pub] 0) tB chX = false /\
   state_is_allowed kp_match (mkAS [grantB_pub] 0) tB [] = true.
+Proof. vm_compute. repeat split; reflexivity. Qed.
+
+(* each branch of the decision table is inhabited *)
+Example C11_witness_decision :
+  let cfg := mkCfg TlsNotRequired false PolNone 2 in
+  let cached := mkConn StInit false (Some (mkAS [grantA] 5000%Z)) [115] false in
+  decision kp_match kp_ok cfg 0%Z conn_init [] tA [] = Some E_AUTH_FIRST /\
+  decision kp_match kp_ok cfg 5000%Z cached [] tA [] = None /\
+  decision kp_match kp_ok cfg 5000%Z cached [] tB [] = Some E_UNAUTHORIZED /\
+  decision kp_match kp_ok cfg 5001%Z cached [AError; AState 0 [grantA]] tA [] = Some E_AUTH_FAILED /\
+  decision kp_match kp_ok cfg 5001%Z cached [AError; AState 10 [grantB_pub]] tB [] = None /\
+  decision kp_match kp_ok (mkCfg TlsNotRequired false PolNone 0) 0%Z conn_init [] tA chX = None.
 Proof. vm_compute. repeat split; reflexivity. Qed.
 
 Example C11_witness_http :
